@@ -1,6 +1,8 @@
 """C17 — Embedded file bytes and their file metadata are exact.
 
-Lean: Model/Bytes.lean, Proofs/Bytes.lean, Props/C17.lean; driver `drv_byt`.
+Lean: Model/Bytes.lean, Proofs/Bytes.lean, Props/C17.lean; driver `drv_byt`;
+Gen/BytesFns.lean (translated from /repo on every run by harness/translate_c17.py, value
+dictionary Model/BytesPy.lean) + Bridge/BytesFns.lean.
 
 Real side: `pack_file` through `MetadorContainer` over both drivers (`h5py.File`, `IH5Record`)
 on boundary byte strings, followed by container histories that keep the nodes (IH5 patch
@@ -28,15 +30,37 @@ from .. import core, lean
 ID = "C17"
 MOD = "harness.props.c17"
 T = "MetadorModel.C17."
+B = "MetadorModel.Bridge.BytesFns."
 LEAN = dict(
-    modules=["MetadorModel.Props.C17"],
+    modules=["MetadorModel.Props.C17", "MetadorModel.Bridge.BytesFnsWrap", "MetadorModel.Bridge.BytesFnsDel",
+             "MetadorModel.Bridge.BytesFnsHash", "MetadorModel.Bridge.BytesFns"],
     theorems=[T + n for n in [
         "unwrap_wrap", "wrap_injective", "store_wrap", "store_roundtrip", "naive_wrapping_not_exact",
         "chunks_flatten", "chunks_bounded", "chunks_zero", "chunked_digest", "file_meta_exact",
         "del_marker_iff", "isDelMark_wrap_iff", "isDelMark_iff", "del_marker_rejected", "guard_passes",
-        "pack_read_exact", "drivers_agree", "plain_h5_keeps_marker"]],
+        "pack_read_exact", "drivers_agree", "plain_h5_keeps_marker"]]
+    # translated tie (Gen/BytesFns.lean is regenerated from the source on every run, see translate_c17.py)
+    + [B + n for n in [
+        "gen_h5_wrap_bytes", "gen_del_value", "gen_is_del_mark", "gen_node_is_del_mark", "gen_guard_value",
+        "gen_def_hash_alg", "gen_hash_alg", "gen_hashsum_loop", "gen_hashsum", "gen_qualified_hashsum",
+        "gen_file_hashsum", "gen_guard_wrap_iff", "gen_hashsum_oneShot"]],
     drivers=["drv_byt"],
 )
+
+
+def translate(ctx):
+    """regenerate Gen/BytesFns.lean from the current source (`_h5_wrap_bytes`, `_is_del_mark`,
+    `_node_is_del_mark`, `_guard_value`, `hashsum`, `qualified_hashsum`, `file_hashsum`)"""
+    from .. import translate_c17
+    try:
+        return translate_c17.write(lean)
+    except translate_c17.PartlyTranslated:
+        raise  # the functions that were understood are written; only the bridge modules of the others fail
+    except Exception as e:  # noqa: BLE001
+        # leave no text of an earlier run (possibly of another tree) behind: the bridge modules then fail to
+        # build for this reason and not for a stale one
+        translate_c17.write_stub(lean, "%s: %s" % (type(e).__name__, e))
+        raise
 
 
 def hx(b):
@@ -721,6 +745,8 @@ def run(ctx):
                 "paths and at paths freed in the same session, pack onto existing path, delete dataset / group, replace = delete + embed another file at the same path, "
                 "discard the open IH5 patch [plain HDF5: back to the file copy of the last boundary] and fill the dropped paths differently); "
                 "all embedded files are re-read and compared after every step, or (30 %, sparse) only at explicit read steps, at reopen and at the end. Non-trivial = tagged (length class, trailing NUL, marker, step kinds).")
+    ctx.trusted.append("harness/translate_c17.py (Python ast -> Lean) + value dictionary Model/BytesPy.lean for _h5_wrap_bytes, _is_del_mark, _node_is_del_mark, "
+                       "_guard_value, hashsum, qualified_hashsum, file_hashsum; bridge theorems Bridge/BytesFns.lean re-checked on every run")
     ctx.assumptions += [
         "hashlib: update(a); update(b) == update(a+b) (hypothesis `Streaming` of chunked_digest / file_meta_exact)",
         "HDF5/h5py stores and returns np.void / Empty scalars unchanged (model `h5Store`, compared with h5py on every run)",
